@@ -212,7 +212,7 @@ theorem C03_iff_unnamed_fragment (c : Converter) (cx : Ctx) (st : GState) (z : B
   · intro hn
     cases hg : genF z (asgOf mode) s t with
     | ok q => exact absurd ((genF_ok_iff z (asgOf mode) s t).mp ⟨q, hg⟩) hn
-    | error d => exact ⟨d, rfl, genF_error z (asgOf mode) s t d hg⟩
+    | error d => exact ⟨d, rfl, genF_error z (asgOf mode) s t hs ht d hg⟩
 
 open Gv.Spec in
 /-- the same at the entry of a METHOD BODY (`buildNoLookup` on the method's own signature, as `buildMethod` calls it): the
@@ -278,7 +278,7 @@ theorem C03_iff_unnamed_fragment_generate (c : Converter) (d : Declared) (z : Bo
   · intro hn
     cases hg : genF z false d.source d.target with
     | ok q => exact absurd ⟨q, hg⟩ hn
-    | error e => exact ⟨e, rfl, genF_error z false d.source d.target e hg⟩
+    | error e => exact ⟨e, rfl, genF_error z false d.source d.target hs ht e hg⟩
 
 /-! non-vacuity: a concrete converter, a state whose method table holds a declared method (on named types), and the pairs
 `map[string][]*int → map[string][]*int` (accepted, with its plan) and `… → map[string][]*int64` (rejected) -/
@@ -346,5 +346,169 @@ example : (∃ ms, generate exConverter [exDecl exT] = .ok ms ∧ PlanCheck.chec
       simp [convertibleB, exDecl, exS, exT', Kind.canon]
     obtain ⟨e, he, _⟩ := h'.2.2 hn
     exact ⟨e, he⟩
+
+/-! ### second stage: the fragment FS = F + unnamed structs with exported fields (the Struct rule without settings)
+
+`Gv.Spec.inFS`; `Convertible` has the constructor `struct` (every target field has a source field of the same name whose pair of
+types is convertible; extra source fields are ignored; a target struct without fields is always convertible).  Additional
+hypotheses: no field settings at all (`matchIgnoreCase`, `ignoreMissing` off, no `map`/`ignore` lines for the method, no
+`autoMap`, no method of the table with raw field settings – the overlapping-definitions check), not an update method / update
+position.  Unnamed structs never create sub-methods, so the state is still untouched.  The possible diagnostics are the two
+type mismatches and `noMatch` (a target field without a source field). -/
+
+open Gv.Spec in
+/-- **C03 on FS, all depths**: as `C03_iff_unnamed_fragment`, with unnamed structs.  The plan-check conclusion additionally needs
+every target struct to have at least one field and no field name twice (`structsOK`: the `Nodup` side condition of the checker,
+and no position where the generator short-cuts two EMPTY structs to a plain assignment – a plan shape the checker does not cover). -/
+theorem C03_iff_unnamed_struct_fragment (c : Converter) (cx : Ctx) (st : GState) (z : Bool) (s t : Ty) (path : List PathElem)
+    (fuel : Nat) (mode : Mode) (pp : Bool)
+    (hs : inFS s = true) (ht : inFS t = true)
+    (hfuel : 2 * (tySize s + tySize t) ≤ fuel) (hmode : mode.isUpdate = false)
+    (hext : c.extend = []) (hms : plainMethodsS st.methods = true)
+    (hu : cx.cfg.common.useUnderlying = false) (hsk : cx.cfg.common.skipCopySameType = false)
+    (hz : cx.cfg.common.useZeroValue = z) (hc : st.useCtor = false)
+    (h1 : cx.cfg.common.matchIgnoreCase = false) (h2 : cx.cfg.common.ignoreMissing = false)
+    (h3 : cx.cfg.fields = []) (h4 : cx.cfg.autoMap = []) (h5 : cx.updateTarget = false)
+    (h6 : noFieldSettings st.methods = true) :
+    ((∃ plan st', conv c fuel cx mode pp s t path st = .ok (plan, st')) ↔ Convertible z s t) ∧
+    (Convertible z s t ↔ convertibleB z s t = true) ∧
+    (∀ plan st', conv c fuel cx mode pp s t path st = .ok (plan, st') →
+        st' = st ∧ genF z (asgOf mode) s t = .ok plan ∧
+        (aliasFree s = true → aliasFree t = true → arrayElemFree (asgOf mode) s = true → structsOK t = true →
+          ∀ p : Eval.Program, PlanCheck.checkTy p plan s t = true)) ∧
+    (¬ Convertible z s t →
+        ∃ d, conv c fuel cx mode pp s t path st = .error d ∧ (d = .typeMismatch ∨ d = .typeMismatchPtr ∨ d = .noMatch)) := by
+  have hsim := conv_struct_fragment c cx st z s t path fuel mode pp hs ht hfuel hmode hext (plainMethodsS_upTo _ _ hms) hu hsk hz hc
+    (structPlain_of cx st h1 h2 h3 h4 h5 h6)
+  rw [hsim]
+  refine ⟨?_, (convertibleB_iff_struct z s t hs ht).symm, ?_, ?_⟩
+  · rw [← genF_ok_iff z (asgOf mode) s t]
+    constructor
+    · rintro ⟨plan, st', h⟩
+      cases hg : genF z (asgOf mode) s t with
+      | ok q => exact ⟨q, rfl⟩
+      | error d => rw [hg] at h; cases h
+    · rintro ⟨q, hq⟩; exact ⟨q, st, by rw [hq]; rfl⟩
+  · intro plan st' h
+    cases hg : genF z (asgOf mode) s t with
+    | error d => rw [hg] at h; cases h
+    | ok q =>
+      rw [hg] at h
+      obtain ⟨rfl, rfl⟩ : q = plan ∧ st = st' := by simpa [ret] using h
+      exact ⟨rfl, rfl, fun ha1 ha2 ha3 ha4 p => genF_checked_struct p z (asgOf mode) s t q hg hs ht ha1 ha2 ha3 ha4⟩
+  · intro hn
+    cases hg : genF z (asgOf mode) s t with
+    | ok q => exact absurd ((genF_ok_iff z (asgOf mode) s t).mp ⟨q, hg⟩) hn
+    | error d => exact ⟨d, rfl, genF_error_struct z (asgOf mode) s t d hg⟩
+
+open Gv.Spec in
+/-- the same at the entry of a METHOD BODY (`buildNoLookup` on the method's own signature): only non-update methods with a
+strictly smaller FS-signature are excluded from the table -/
+theorem C03_iff_unnamed_struct_fragment_method (c : Converter) (cx : Ctx) (st : GState) (z : Bool) (s t : Ty)
+    (path : List PathElem) (fuel : Nat) (mode : Mode) (pp : Bool)
+    (hs : inFS s = true) (ht : inFS t = true)
+    (hfuel : 2 * (tySize s + tySize t) ≤ fuel) (hmode : mode.isUpdate = false)
+    (hext : c.extend = []) (hms : plainMethodsSUpTo (tySize s + tySize t - 1) st.methods = true)
+    (hu : cx.cfg.common.useUnderlying = false) (hsk : cx.cfg.common.skipCopySameType = false)
+    (hz : cx.cfg.common.useZeroValue = z) (hc : st.useCtor = false)
+    (h1 : cx.cfg.common.matchIgnoreCase = false) (h2 : cx.cfg.common.ignoreMissing = false)
+    (h3 : cx.cfg.fields = []) (h4 : cx.cfg.autoMap = []) (h5 : cx.updateTarget = false)
+    (h6 : noFieldSettings st.methods = true) :
+    noLookup c fuel cx mode pp s t path st = ret (genF z (asgNL mode) s t) st ∧
+    ((∃ plan, noLookup c fuel cx mode pp s t path st = .ok (plan, st)) ↔ Convertible z s t) := by
+  have hsim := noLookup_struct_fragment c cx st z s t path fuel mode pp hs ht hfuel hmode hext hms hu hsk hz hc
+    (structPlain_of cx st h1 h2 h3 h4 h5 h6)
+  refine ⟨hsim, ?_⟩
+  rw [hsim, ← genF_ok_iff z (asgNL mode) s t]
+  constructor
+  · rintro ⟨plan, h⟩
+    cases hg : genF z (asgNL mode) s t with
+    | ok q => exact ⟨q, rfl⟩
+    | error d => rw [hg] at h; cases h
+  · rintro ⟨q, hq⟩; exact ⟨q, by rw [hq]; rfl⟩
+
+open Gv.Spec in
+/-- **C03 for a whole converter with one declared method on FS-types** (e.g. `Convert(struct{A int; B []string}) struct{A int}`):
+`generate` succeeds iff the documented rules cover the signature; the table is then the declared method with body
+`return <reference plan>` (no sub-method), and – side conditions as above – the program passes `PlanCheck.checkProg`;
+otherwise the run fails with a type mismatch or `noMatch` and emits nothing. -/
+theorem C03_iff_unnamed_struct_fragment_generate (c : Converter) (d : Declared) (z : Bool) (fuel rounds : Nat)
+    (hup : d.updateTarget = false) (hraw : d.cfg.rawFieldSettings = []) (hctor : d.cfg.constructor = none)
+    (hs : inFS d.source = true) (ht : inFS d.target = true)
+    (hfuel : 2 * (tySize d.source + tySize d.target) < fuel) (hrounds : 2 ≤ rounds)
+    (hext : c.extend = [])
+    (hu : d.cfg.common.useUnderlying = false) (hsk : d.cfg.common.skipCopySameType = false)
+    (hz : d.cfg.common.useZeroValue = z)
+    (h1 : d.cfg.common.matchIgnoreCase = false) (h2 : d.cfg.common.ignoreMissing = false)
+    (h3 : d.cfg.fields = []) (h4 : d.cfg.autoMap = []) :
+    ((∃ ms, generate c [d] fuel rounds = .ok ms) ↔ Convertible z d.source d.target) ∧
+    (∀ ms, generate c [d] fuel rounds = .ok ms →
+        ∃ plan, genF z false d.source d.target = .ok plan ∧
+          ms = [{ declaredMethod d with dirty := false, body := some (.convert plan) }] ∧
+          (aliasFree d.source = true → aliasFree d.target = true → arrayElemFree false d.source = true →
+            structsOK d.target = true → PlanCheck.checkProg { conv := c, methods := ms } = true)) ∧
+    (¬ Convertible z d.source d.target →
+        ∃ e, generate c [d] fuel rounds = .error e ∧ (e = .typeMismatch ∨ e = .typeMismatchPtr ∨ e = .noMatch)) := by
+  rw [generate_single_struct c d z fuel rounds hup hraw hctor hs ht hfuel hrounds hext hu hsk hz h1 h2 h3 h4,
+    ← genF_ok_iff z false d.source d.target]
+  refine ⟨?_, ?_, ?_⟩
+  · constructor
+    · rintro ⟨ms, h⟩
+      cases hg : genF z false d.source d.target with
+      | ok q => exact ⟨q, rfl⟩
+      | error e => rw [hg] at h; cases h
+    · rintro ⟨q, hq⟩; exact ⟨_, by rw [hq]⟩
+  · intro ms h
+    cases hg : genF z false d.source d.target with
+    | error e => rw [hg] at h; cases h
+    | ok q =>
+      rw [hg] at h
+      simp only [Except.ok.injEq] at h
+      refine ⟨q, rfl, h.symm, fun ha1 ha2 ha3 ha4 => ?_⟩
+      subst h
+      simp [PlanCheck.checkProg, declaredMethod, genF_checked_struct _ z false d.source d.target q hg hs ht ha1 ha2 ha3 ha4]
+  · intro hn
+    cases hg : genF z false d.source d.target with
+    | ok q => exact absurd ⟨q, hg⟩ hn
+    | error e => exact ⟨e, rfl, genF_error_struct z false d.source d.target e hg⟩
+
+/-! non-vacuity: `struct{A int; B []string; C bool} → struct{A int; B []string}` is generated (the extra source field is
+ignored) and checked; with a target field `D` that the source lacks it fails with `noMatch`; with `B []int` it is a type mismatch -/
+
+def fld (n : String) : FieldInfo := { name := n.toList, exported := true, embedded := false, pkg := [] }
+def exStructS : Ty := .struct (.cons (fld "A") (.basic .int) (.cons (fld "B") (.slice (.basic .string)) (.cons (fld "C") (.basic .bool) .nil)))
+def exStructT : Ty := .struct (.cons (fld "A") (.basic .int) (.cons (fld "B") (.slice (.basic .string)) .nil))
+def exStructT1 : Ty := .struct (.cons (fld "A") (.basic .int) (.cons (fld "D") (.basic .int) .nil))
+def exStructT2 : Ty := .struct (.cons (fld "A") (.basic .int) (.cons (fld "B") (.slice (.basic .int)) .nil))
+def exDeclS (t : Ty) : Declared :=
+  { name := "Convert".toList, source := exStructS, target := t, args := [{ name := "source".toList, use := .source, ty := exStructS }],
+    contexts := [], returnError := false, updateTarget := false, cfg := { common := {} } }
+
+open Gv.Spec in
+example :
+    (∃ ms, generate exConverter [exDeclS exStructT] = .ok ms ∧ PlanCheck.checkProg { conv := exConverter, methods := ms } = true) ∧
+    generate exConverter [exDeclS exStructT1] = .error .noMatch ∧
+    generate exConverter [exDeclS exStructT2] = .error .typeMismatch := by
+  refine ⟨?_, ?_, ?_⟩
+  · have h := C03_iff_unnamed_struct_fragment_generate exConverter (exDeclS exStructT) false 200 64 rfl rfl rfl (by decide) (by decide)
+      (by decide) (by decide) rfl rfl rfl rfl rfl rfl rfl rfl
+    obtain ⟨ms, hms⟩ := h.1.mpr
+      (.struct (.cons (sty := .basic .int) (by simp [fieldTy, fld]) (.basic rfl)
+        (.cons (sty := .slice (.basic .string)) (by simp [fieldTy, fld]) (.slice (.basic rfl)) .nil)))
+    obtain ⟨plan, _, _, hchk⟩ := h.2.1 ms hms
+    exact ⟨ms, hms, hchk (by decide) (by decide) (by decide) (by decide)⟩
+  · have hg : genF false false exStructS exStructT1 = .error .noMatch := by
+      simp [exStructS, exStructT1, genF_struct, genFields_cons, genF_basic, fieldTy, fld, Fields.length, Except.map]
+    rw [generate_single_struct exConverter (exDeclS exStructT1) false 200 64 rfl rfl rfl (by decide) (by decide) (by decide) (by decide)
+      rfl rfl rfl rfl rfl rfl rfl rfl]
+    show (match genF false false exStructS exStructT1 with | .ok plan => _ | .error e => _) = _
+    rw [hg]
+  · have hg : genF false false exStructS exStructT2 = .error .typeMismatch := by
+      simp [exStructS, exStructT2, genF_struct, genFields_cons, genF_basic, genF_slice, fieldTy, fld, Fields.length, Kind.canon,
+        Except.map]
+    rw [generate_single_struct exConverter (exDeclS exStructT2) false 200 64 rfl rfl rfl (by decide) (by decide) (by decide) (by decide)
+      rfl rfl rfl rfl rfl rfl rfl rfl]
+    show (match genF false false exStructS exStructT2 with | .ok plan => _ | .error e => _) = _
+    rw [hg]
 
 end Gv.Props.C03
